@@ -81,8 +81,20 @@ def exec_factory(ctx, g, code, op_name, argsd, label):
         if not ok:
             ctx.tie_broken("exec:once", f"{label}: factory at position {f['pos']}: calling nodes {f['calls']}, statements {f['stmt_counts']}, "
                                         f"events {ev}, model keywords {f['passed_names']} (factory_called_once_compiled)")
+            continue
+        ctx.count("exec-thm:factory-called-once")
+        # value level (factory_call_value_compiled): further premises, then exactly one call event whose function term is the input's object
+        vprem = [k for k, v in (("root_stable", r["root_stable"]), ("casts_plain", f["casts_plain"])) if not v]
+        if vprem:
+            ctx.count("exec-thm:value-premise-fails:" + ",".join(vprem))
+            ctx.tie_broken("exec:premise", f"{label}: premise(s) {vprem} of factory_call_value_compiled do not hold for the captured graph")
+            continue
+        vev = f["value_events"]
+        if not (len(vev) == 1 and vev[0]["tag"] == f["calls"][0] and vev[0]["event"]["npos"] == 1 and vev[0]["event"]["kwnames"] == f["passed_names"]):
+            ctx.tie_broken("exec:once", f"{label}: factory at position {f['pos']}: call events whose function is the factory object: {vev} "
+                                        f"(factory_call_value_compiled)")
         else:
-            ctx.count("exec-thm:factory-called-once")
+            ctx.count("exec-thm:factory-object-called-once")
     return r
 
 
@@ -107,6 +119,12 @@ def exec_adapt(ctx, g, code, arg_shapes, axis, options, out_shape, label):
     if not ok:
         ctx.tie_broken("exec:once", f"{label}: user constant {u['const']}: calling nodes {u['calls']} (all {u['all_calls']}, reachable {u['reachable']}), "
                                     f"statements {u['stmt_counts']}, events {ev}, expected {r['spec_npos']} positional and keywords {r['spec_kwnames']}")
+        return r
+    ctx.count("exec-thm:user-called-once")
+    # value level (adapter_call_value_compiled): exactly one call event whose function term is a constant object
+    cev = r["const_events"]
+    if not (len(cev) == 1 and cev[0]["tag"] == u["calls"][0] and cev[0]["event"]["npos"] == r["spec_npos"] and cev[0]["event"]["kwnames"] == r["spec_kwnames"]):
+        ctx.tie_broken("exec:once", f"{label}: call events whose function is a constant object: {cev} (adapter_call_value_compiled)")
     else:
-        ctx.count("exec-thm:user-called-once")
+        ctx.count("exec-thm:user-object-called-once")
     return r
